@@ -58,6 +58,14 @@ pub mod c20 {
 pub mod c17 {
     include!(concat!(env!("ETHERCRAB_VERIF_DIR"), "/c17.rs"));
 }
+#[cfg(kani)]
+pub mod c19 {
+    include!(concat!(env!("ETHERCRAB_VERIF_DIR"), "/c19.rs"));
+}
+#[cfg(kani)]
+pub mod c19_gen {
+    include!(concat!(env!("ETHERCRAB_VERIF_DIR"), "/c19_gen.rs"));
+}
 #[cfg(all(kani, ethercrab_verif_h1))]
 pub mod c11 {
     include!(concat!(env!("ETHERCRAB_VERIF_DIR"), "/c11.rs"));
